@@ -1542,7 +1542,7 @@ fn exhaustive(ck: &mut Check) {
 /// enclosure of C11 (`lb <= log2 x <= ub`, exact comparison at powers of two).  Subs for that
 /// clause are registered here once the oracle exists; until then the clause is NOT covered.
 fn log2_subs(ck: &mut Check) {
-    if ck.is_replay() || !ck.wants("log2_bounds") {
+    if !ck.wants("log2_bounds") {
         return;
     }
     use dv::ball::{self, Ball};
@@ -1648,6 +1648,31 @@ fn log2_subs(ck: &mut Check) {
             }
         }
     }
+    // floats whose exponent itself is beyond the f32-exact range (|e| up to 2^62): the bounds are
+    // computed from the exponent, which must not be rounded on the way
+    let n_fexp = if th { 6_000 } else { 400 };
+    for i in 0..n_fexp {
+        let mag: i64 = match i % 5 {
+            0 => (1i64 << 24) + 1 + r.below(1 << 24) as i64,
+            1 => (1i64 << (25 + r.below(37))) + r.below(1 << 20) as i64,
+            2 => (1i64 << (24 + r.below(38))) - 1 - r.below(1000) as i64,
+            3 => 134_217_728 + r.below(64) as i64 - 32,
+            _ => (r.next() >> 2) as i64,
+        };
+        let e = if r.below(2) == 0 { mag } else { -mag };
+        let m = BigInt::from(match r.below(4) {
+            0 => 1u64,
+            1 => 1 + r.below(99),
+            2 => r.next() | 1,
+            _ => 0x19,
+        });
+        if i % 2 == 0 {
+            lines.push((format!("biglog2 b {} {} 0", hx(&m), e), X::Sci(Sci::new(m, e, 2)), "log2:FBig base 2, |exponent| above 2^24"));
+        } else {
+            let m = if (&m % 10u8).is_zero() { m + 1 } else { m };
+            lines.push((format!("biglog2 d {} {} 0", hx(&m), e), X::Sci(Sci::new(m, e, 10)), "log2:FBig base 10, |exponent| above 2^24"));
+        }
+    }
     // exact powers of two and their neighbours, up to exponents that f32 cannot hold exactly
     // (2^24 < n: the bounds must still enclose n although n itself is not an f32)
     let n_pow = if th { 4_000 } else { 300 };
@@ -1749,6 +1774,55 @@ fn log2_subs(ck: &mut Check) {
         }
         Ok(())
     };
+
+    // ---- replay of one case line (every build again)
+    if ck.is_replay() {
+        if let Some(case) = ck.replay_case("log2_bounds") {
+            let line = case["line"].as_str().unwrap_or("").to_string();
+            let a: Vec<&str> = line.split_whitespace().collect();
+            let ph = |t: &str| BigInt::parse_bytes(t.trim_start_matches('-').as_bytes(), 16);
+            let x: Option<X> = match (a.first().copied(), a.get(1).copied()) {
+                (Some("plog2"), Some(_)) => a.get(2).and_then(|t| t.trim_start_matches('-').parse::<u128>().ok()).map(|m| X::Int(BigInt::from(m))),
+                (Some("flog2"), Some("f32")) => a.get(2).and_then(|t| u32::from_str_radix(t, 16).ok()).map(|b| X::F64(f32::from_bits(b) as f64)),
+                (Some("flog2"), Some("f64")) => a.get(2).and_then(|t| u64::from_str_radix(t, 16).ok()).map(|b| X::F64(f64::from_bits(b))),
+                (Some("biglog2"), Some("u")) | (Some("biglog2"), Some("i")) => a.get(2).and_then(|t| ph(t)).map(X::Int),
+                (Some("biglog2"), Some("r")) => match (a.get(2).and_then(|t| ph(t)), a.get(3).and_then(|t| ph(t))) {
+                    (Some(n), Some(d)) => Some(X::Ratio(n, d)),
+                    _ => None,
+                },
+                (Some("biglog2"), Some(k @ ("d" | "b"))) => match (a.get(2).and_then(|t| ph(t)), a.get(3).and_then(|t| t.parse::<i64>().ok())) {
+                    (Some(m), Some(e)) => Some(X::Sci(Sci::new(m, e, if k == "d" { 10 } else { 2 }))),
+                    _ => None,
+                },
+                (Some("biglog2"), Some("p")) => match (a.get(2).and_then(|t| t.parse::<u64>().ok()), a.get(3).and_then(|t| t.parse::<i64>().ok())) {
+                    (Some(n), Some(0)) => Some(X::Sci(Sci::new(BigInt::one(), n as i64, 2))),
+                    (Some(n), Some(d)) => Some(X::Int((BigInt::one() << n as usize) + d)),
+                    _ => None,
+                },
+                _ => None,
+            };
+            let res = match x {
+                None => Err(format!("unreadable case line '{line}'")),
+                Some(x) => {
+                    let mut r = Ok(());
+                    for (bname, bin) in &bins {
+                        match dv::evalrun::run(bin, &[line.clone()], &format!("c12-log2-replay-{bname}")) {
+                            Ok(ans) => {
+                                if let Err(sig) = judge(&line, &x, &ans[0], bname) {
+                                    r = Err(sig);
+                                    break;
+                                }
+                            }
+                            Err(e) => infra(&e),
+                        }
+                    }
+                    r
+                }
+            };
+            ck.replay_verdict("log2_bounds", &case, res);
+        }
+        return;
+    }
 
     let mut labels: BTreeMap<&'static str, u64> = BTreeMap::new();
     let mut evaluations = 0u64;
